@@ -2,7 +2,7 @@
     Property theorems only; each is closed by [exact] of a lemma proved in Proofs/.
     Every bound below holds at every moment of every run over an arbitrary source — finite of any
     length or endless — and depends only on the buffer size / thread count. *)
-Require Import Sedpack.Model.Base Sedpack.Generated.GenIter Sedpack.Model.Iter Sedpack.Proofs.IterProofs.
+Require Import Sedpack.Model.Base Sedpack.Generated.GenIter Sedpack.Model.Iter Sedpack.Proofs.IterProofs Sedpack.Proofs.ChainProofs.
 Require Import Sedpack.Generated.GenLazyPool Sedpack.Model.LazyPool Sedpack.Proofs.LazyPoolInv Sedpack.Proofs.LazyPoolBound.
 From Coq Require Import Permutation.
 
@@ -42,6 +42,19 @@ Print Assumptions c14_batches_bounded.
 
 (** Non-vacuity on an endless source: after 50 machine steps over a cycle of 3 paths the shuffle
     buffer (size 4) has yielded 45 elements and pulled exactly 4 more. *)
+(** The synchronous interface as a composition (the example-level shuffle buffer over the lazy chain of shards, itself fed by any
+    — possibly shuffled, possibly endless — stream of paths): at every moment, all but one of the shard files opened so far are
+    accounted for by the examples already handed over plus the buffer: (opened - 1) * m <= yielded + shuffle, where every shard
+    holds at least m >= 1 examples.  With shuffle = 0 this is: at most one shard file is open beyond those fully consumed. *)
+Theorem c14_sync_interface_readahead :
+  forall (path ex : Type) (psrc : @source path) (read : path -> list ex) (m : nat), 1 <= m -> (forall p, m <= length (read p)) ->
+  forall (pick : nat -> nat -> nat) (perm : list ex -> list ex) (b : nat), (forall l, Permutation.Permutation (perm l) l) ->
+  forall (fuel : nat) (s0 : s_state psrc),
+    let st := sb_run (chain_source path ex psrc read) pick perm b fuel (sb_init (chain_source path ex psrc read) (chain_init path ex psrc s0)) in
+    (c_opened path ex psrc (sb_src st) - 1) * m <= length (sb_out st) + b.
+Proof. exact sync_readahead. Qed.
+Print Assumptions c14_sync_interface_readahead.
+
 Theorem c14_nonvacuous :
   let st := sb_run (cycle_source [10; 20; 30] 0) (lcg_pick 1) (@rev nat) 4 50 (sb_init (cycle_source [10; 20; 30] 0) 0) in
   length (sb_out st) = 45 /\ sb_pulled st = 49.
